@@ -648,6 +648,7 @@ func (c *FnCtx) callFunc(st *State, call *ast.CallExpr, fn *types.Func, recv *Va
 	c.usedCons[key] = true
 	// bind names
 	bind := map[string]*Val{}
+	absPtr := map[string]string{} // parameter name -> reference, for receivers that point to an abstract container
 	names := con.Params
 	if len(names) == 0 {
 		if sig.Recv() != nil {
@@ -675,6 +676,19 @@ func (c *FnCtx) callFunc(st *State, call *ast.CallExpr, fn *types.Func, recv *Va
 			if pi >= 0 && pi < sig.Params().Len() {
 				if _, isIface := sig.Params().At(pi).Type().Underlying().(*types.Interface); isIface && a.S != SInt && a.S != SNone {
 					a = c.box(a)
+				}
+			}
+			// pointer to an abstract container: the contract talks about the container value
+			if a.S == SInt && a.Typ != nil {
+				if pt, ok := a.Typ.Underlying().(*types.Pointer); ok {
+					if nt, ok := types.Unalias(pt.Elem()).(*types.Named); ok {
+						if as, isAbs := c.V.specs.Abstract[typeShortName(nt)]; isAbs && i == 0 && sig.Recv() != nil {
+							hk := "ptr." + sortName(as)
+							h := c.heapGet(st, hk, as)
+							absPtr[n] = a.T
+							a = &Val{T: tApp("select", h, a.T), S: as, Typ: pt.Elem()}
+						}
+					}
 				}
 			}
 			bind[n] = a
@@ -773,6 +787,12 @@ func (c *FnCtx) callFunc(st *State, call *ast.CallExpr, fn *types.Func, recv *Va
 		}
 		nv := &Val{T: c.fresh("mut_"+mn, v.S), S: v.S, Typ: v.Typ}
 		postBind[mn] = nv
+		if ref, ok := absPtr[mn]; ok {
+			hk := "ptr." + sortName(v.S)
+			h := c.heapGet(st, hk, v.S)
+			st.heap[hk] = tApp("store", h, ref, nv.T)
+			continue
+		}
 		if recvExpr != nil && len(names) > 0 && names[0] == mn && sig.Recv() != nil {
 			c.assignTo(st, recvExpr, nv)
 		} else {
